@@ -28,8 +28,10 @@ InstEnv* iglue_env_new(unsigned mem_min, unsigned mem_max, unsigned goff, unsign
     e->goff = goff; e->ginit = ginit;
     return e;
 }
-void* iglue_instantiate(InstEnv* env) {
-    instInstance* i = (instInstance*)calloc(1, sizeof(instInstance));
+void* iglue_instantiate(InstEnv* env, int dirty) {
+    /* the examples instantiate into uninitialised stack structs: the previous contents of the struct must not matter */
+    instInstance* i = (instInstance*)(dirty ? malloc(sizeof(instInstance)) : calloc(1, sizeof(instInstance)));
+    if (dirty) memset(i, dirty == 1 ? 0xA5 : 0xFF, sizeof(instInstance));
     g_env = env;
     instInstantiate(i, resolve);
     g_env = NULL;
@@ -86,6 +88,20 @@ void iglue_free_instance(void* inst) {
     free(m);
 #endif
     free(i);
+}
+/* FreeInstance, then Instantiate again into the same struct, against (possibly) other resolver objects */
+void iglue_reinstantiate(void* inst, InstEnv* env) {
+    instInstance* i = (instInstance*)inst;
+#if !MEM_IMPORTED
+    wasmMemory* m = i->m0;
+#endif
+    instFreeInstance(i);
+#if !MEM_IMPORTED
+    free(m);
+#endif
+    g_env = env;
+    instInstantiate(i, resolve);
+    g_env = NULL;
 }
 void iglue_env_free(InstEnv* e) {
     wasmMemoryFree((wasmMemory*)e->mem); free(e->mem);
